@@ -14,7 +14,7 @@ SInit == Init /\ hist = <<>>
 SetToSeq(S) == CHOOSE f \in [1..Cardinality(S) -> S] : \A i, j \in 1..Cardinality(S) : i < j => f[i] < f[j]
 
 \* sets inside operations are printed as sorted sequences
-Enc(o) == [k \in DOMAIN o |-> IF k \in {"x", "v", "acct"} /\ o.op \in {"NodeSet", "Attest", "Round", "RestRegs", "Offer", "Env"} THEN SetToSeq(o[k]) ELSE o[k]]
+Enc(o) == [k \in DOMAIN o |-> IF k \in {"x", "v", "acct"} /\ o.op \in {"NodeSet", "Attest", "Round", "RestRegs", "Offer", "Env", "Config"} THEN SetToSeq(o[k]) ELSE o[k]]
 EncSeq(s) == [i \in DOMAIN s |-> Enc(s[i])]
 
 SNext ==
